@@ -54,6 +54,20 @@ func (o optSet) build() *ach.ValidateOpts {
 	return v
 }
 
+// optsByName: the option set with exactly these boolean flags
+func optsByName(names ...string) optSet {
+	t := reflect.TypeOf(ach.ValidateOpts{})
+	var o optSet
+	for bit, fi := range boolFlags {
+		for _, n := range names {
+			if t.Field(fi).Name == n {
+				o.mask |= 1 << uint(bit)
+			}
+		}
+	}
+	return o
+}
+
 func (o optSet) names() []string {
 	if o.isNil {
 		return []string{"<nil opts>"}
